@@ -5,7 +5,7 @@ extends its meta.json with what was run here."""
 import sys, os, json, shutil, subprocess
 prop, k, slug, caught = sys.argv[1:5]
 note = sys.argv[5] if len(sys.argv) > 5 else ""
-src = f"/tmp/mutout-{prop.lower()}/{k}"
+src = os.environ.get("KEEP_SRC") or f"/tmp/mutout-{prop.lower()}/{k}"
 dst = f"/verif/seeded/{prop}-{k}-{slug}"
 os.makedirs(dst, exist_ok=True)
 for f in os.listdir(src):
@@ -25,7 +25,7 @@ meta["confirmed_here"] = {
     "repo_head": subprocess.run(["git", "-C", "/repo", "rev-parse", "--short", "HEAD"], capture_output=True, text=True).stdout.strip(),
     "what_was_run": "tools/try_mutant.sh in a scratch worktree of /repo (/tmp/mutrun): git apply patch.diff; cargo build --offline; cargo test --workspace --no-fail-fast --offline (33/33 pass); demonstration with the change (fails) and after git checkout (passes); then ./check <ID> quick with HDV_REPO pointing at the patched worktree",
     "tests_with_change": "33 passed / 0 failed",
-    "demo_with_change": "fails (exit 101)",
+    "demo_with_change": "fails",
     "demo_without_change": "passes (exit 0)",
     "caught_by": caught,
 }
